@@ -28,6 +28,7 @@ type Solver struct {
 	out     *bufio.Reader
 	em      *Emitter
 	depth   int
+	depth0  bool
 	log     *os.File
 	Queries int
 	NSat    int
@@ -37,6 +38,13 @@ type Solver struct {
 	bin     string
 	timeout int
 	Errors  []string
+
+	// mirror of everything sent, for the fallback solver
+	decls     strings.Builder
+	stack     [][]string
+	lastModel map[string]uint64
+	Fallbacks int
+	FallbackT time.Duration
 }
 
 func NewSolver(bin string, timeoutMs int, logPath string) (*Solver, error) {
@@ -113,6 +121,7 @@ func (s *Solver) send(txt string) {
 
 func (s *Solver) flushDefs() {
 	if s.em.out.Len() > 0 {
+		s.decls.WriteString(s.em.out.String())
 		s.send(s.em.out.String())
 		s.em.out.Reset()
 	}
@@ -121,6 +130,7 @@ func (s *Solver) flushDefs() {
 func (s *Solver) Push() {
 	s.send("(push 1)\n")
 	s.depth++
+	s.stack = append(s.stack, nil)
 }
 
 func (s *Solver) Pop(n int) {
@@ -129,6 +139,7 @@ func (s *Solver) Pop(n int) {
 	}
 	s.send(fmt.Sprintf("(pop %d)\n", n))
 	s.depth -= n
+	s.stack = s.stack[:len(s.stack)-n]
 }
 
 func (s *Solver) PopTo(d int) { s.Pop(s.depth - d) }
@@ -137,6 +148,11 @@ func (s *Solver) Assert(t *Term) {
 	r := s.em.ref(t)
 	s.flushDefs()
 	s.send("(assert " + r + ")\n")
+	if len(s.stack) == 0 {
+		s.stack = append(s.stack, nil)
+		s.depth0 = true
+	}
+	s.stack[len(s.stack)-1] = append(s.stack[len(s.stack)-1], "(assert "+r+")")
 }
 
 func (s *Solver) readLine() string {
@@ -177,6 +193,10 @@ func (s *Solver) Check() SatResult {
 	if len(s.Errors) > 0 {
 		res = Unknown
 	}
+	s.lastModel = nil
+	if res == Unknown && len(s.Errors) == 0 {
+		res = s.fallback()
+	}
 	s.Queries++
 	switch res {
 	case Sat:
@@ -194,8 +214,62 @@ func (s *Solver) Check() SatResult {
 	return res
 }
 
+// fallback re-runs the current assertion stack in cvc5 (integer encoding first, which
+// decides multiply/divide-by-constant kernels that stall bit-blasting, then plain).
+func (s *Solver) fallback() SatResult {
+	t0 := time.Now()
+	defer func() { s.FallbackT += time.Since(t0) }()
+	s.Fallbacks++
+	var sb strings.Builder
+	sb.WriteString("(set-option :produce-models true)\n(set-logic QF_BV)\n")
+	sb.WriteString(s.decls.String())
+	for _, lvl := range s.stack {
+		for _, a := range lvl {
+			sb.WriteString(a)
+			sb.WriteByte('\n')
+		}
+	}
+	sb.WriteString("(check-sat)\n")
+	var names []string
+	for v := range s.em.declared {
+		names = append(names, smtName(v.Name))
+	}
+	if len(names) > 0 {
+		sb.WriteString("(get-value (" + strings.Join(names, " ") + "))\n")
+	}
+	f, err := os.CreateTemp("", "gosym_fb_*.smt2")
+	if err != nil {
+		return Unknown
+	}
+	defer os.Remove(f.Name())
+	f.WriteString(sb.String())
+	f.Close()
+	to := s.timeout * 3
+	for _, args := range [][]string{{"--solve-bv-as-int=sum"}, {}} {
+		cmd := exec.Command("cvc5", append(args, fmt.Sprintf("--tlimit=%d", to), f.Name())...)
+		out, _ := cmd.Output()
+		txt := string(out)
+		first := strings.TrimSpace(strings.SplitN(txt, "\n", 2)[0])
+		switch first {
+		case "unsat":
+			return Unsat
+		case "sat":
+			m := map[string]uint64{}
+			if i := strings.Index(txt, "(("); i >= 0 {
+				parseValues(txt[i:], m)
+			}
+			s.lastModel = m
+			return Sat
+		}
+	}
+	return Unknown
+}
+
 // Values reads the model values of the given variables (after Sat).
 func (s *Solver) Values(vars []*Term) map[string]uint64 {
+	if s.lastModel != nil {
+		return s.lastModel
+	}
 	m := map[string]uint64{}
 	if len(vars) == 0 {
 		return m
